@@ -111,6 +111,9 @@ pub fn vspaced_before_paren(t: &str) -> (r: bool) { unimplemented!() }
 """
 
 FORMAT_PROGRAMS = [
+    # a `let` / assignment whose `=` is on a later line (the spacing pass joins the lines), followed by mis-indented statements that open multi-line strings
+    "fun f(): String {\n  let x\n    = 1\n    let s = \"a\n      b\"\n  s\n}\n\nprintln(f())\n",
+    "fun g(): String {\n  let total = 0\n  total\n     = 5\n        let t = \"first\n   second\n\n      third\"\n  let u\n\n  = \"x\n y\"\n      println(u)\n  t\n}\nprintln(g())\n",
     'fun f() {\n      let s = "a\n   b"\n  s\n}\n',
     'fun f() {\nif True {\nlet s = "line1\nline2\n      line3"\nprintln(s)\n}\n}\n',
     'fun f(): String {\n    "x\n  y\n z"\n}\n',
